@@ -45,18 +45,26 @@ def confirm(name, wt, prop):
     print(name, "confirmed" if ok else "NOT CONFIRMED", res)
 
 
-def run(name, checks, tier="quick"):
+def run(name, checks, tier="quick", worktree=None):
+    """default: git apply the patch to /repo, run, revert.  worktree=<dir>: run against a scratch worktree that has
+    the change applied (VERIF_REPO=<dir>) - used while other runs are reading /repo."""
     out = os.path.join(V, "seeded", name)
     patch = os.path.join(out, "patch.diff")
-    rc, o = sh("git -C /repo status --porcelain --untracked-files=no")
-    assert not o.strip(), "/repo not clean: " + o
-    rc, o = sh("git -C /repo apply %s" % patch)
-    assert rc == 0, o
     meta = json.load(open(os.path.join(out, "meta.json")))
+    if worktree:
+        rc, o = sh("git diff --stat -- scriptplan", cwd=worktree)
+        assert o.strip(), "worktree has no change applied"
+    else:
+        rc, o = sh("git -C /repo status --porcelain --untracked-files=no")
+        assert not o.strip(), "/repo not clean: " + o
+        rc, o = sh("git -C /repo apply %s" % patch)
+        assert rc == 0, o
     try:
         for c in checks:
             t0 = time.time()
             env = dict(os.environ, VERIF_EVIDENCE_SCRATCH="1")
+            if worktree:
+                env["VERIF_REPO"] = worktree
             rc, o = sh("./check %s --tier %s" % (c, tier), cwd=V, env=env)
             lines = [l for l in o.splitlines() if l.startswith("   new violation class") or l.startswith("VIOLATION") or l.startswith("INCONCLUSIVE") or l.startswith("==")]
             meta["checks_run"][c + ":" + tier] = {"exit": rc, "caught": rc == 1, "wall_s": round(time.time() - t0, 1), "summary": lines[:6]}
@@ -64,10 +72,12 @@ def run(name, checks, tier="quick"):
             for l in lines[:4]:
                 print("    ", l[:200])
     finally:
-        sh("git -C /repo checkout -- .")
+        if not worktree:
+            sh("git -C /repo checkout -- .")
         json.dump(meta, open(os.path.join(out, "meta.json"), "w"), indent=1)
-    rc, o = sh("git -C /repo status --porcelain --untracked-files=no")
-    assert not o.strip(), "/repo not clean after revert"
+    if not worktree:
+        rc, o = sh("git -C /repo status --porcelain --untracked-files=no")
+        assert not o.strip(), "/repo not clean after revert"
 
 
 if __name__ == "__main__":
@@ -79,4 +89,9 @@ if __name__ == "__main__":
         if "--thorough" in args:
             tier = "thorough"
             args.remove("--thorough")
-        run(sys.argv[2], args, tier)
+        wt = None
+        if "--worktree" in args:
+            i = args.index("--worktree")
+            wt = args[i + 1]
+            del args[i:i + 2]
+        run(sys.argv[2], args, tier, wt)
